@@ -204,16 +204,40 @@ func domAcross(a, b ssa.Instruction, depth int) bool {
 		}
 	}
 	// b inside a helper: a precedes b when it precedes every call of the helper
+	// (only the calls made on behalf of a's function count: a helper shared with an
+	// unrelated function is looked at in the context of the function the rule is about)
 	if h := helperFor(b.Parent()); h != nil && len(h.sites) > 0 {
-		all := true
+		all, n := true, 0
 		for _, s := range h.sites {
+			if !inScopeOf(s.Parent(), a.Parent(), 4) {
+				continue
+			}
+			n++
 			if !domAcross(a, s, depth-1) {
 				all = false
 				break
 			}
 		}
-		if all {
+		if all && n > 0 {
 			return true
+		}
+	}
+	return false
+}
+
+// inScopeOf: f is root or a transparent helper called (transitively) from root.
+func inScopeOf(f, root *ssa.Function, depth int) bool {
+	if outermost(f) == outermost(root) {
+		return true
+	}
+	if depth == 0 {
+		return false
+	}
+	if h := helperFor(outermost(f)); h != nil {
+		for _, s := range h.sites {
+			if inScopeOf(s.Parent(), root, depth-1) {
+				return true
+			}
 		}
 	}
 	return false
